@@ -16,6 +16,10 @@ try:
         rec["revert"] = "conflict"
     else:
         rec["revert"] = "clean"
+        imp = subprocess.run(["/venv/bin/python", "-c", "import src"], cwd=wt, env=dict(os.environ, PYTHONPATH=wt), capture_output=True, text=True)
+        if imp.returncode:
+            rec["revert"] = "unusable: the reverted tree no longer imports (later commits build on it)"
+            checks = []
         for c in checks:
             t0 = time.time()
             env = dict(os.environ, VERIF_REPO=wt, VERIF_NO_EVIDENCE="1", VERIF_NO_REGRESSION="1")
